@@ -881,6 +881,11 @@ func runEditHistories(cfg editCfg, from, to int, path string) (events int, ops m
 			if !ev.Ok || ev.Panic {
 				break // policy 10: after an error the object is dead
 			}
+			if ev.Post != nil && !ev.Post.Sane {
+				// the structure is no longer a tree (TLC will say which conjunct fails): the library may loop or call
+				// os.Exit on it, the history stops here
+				break
+			}
 		}
 	}
 	return tw.n, ops
